@@ -35,7 +35,8 @@ class KeysHarness(Harness):
             if addr == 35184:
                 return batt(call[0])
             return 1
-        inv, fake = models.make(M, dict(self.cfg, refuse=[]), default=default, refuse=refuse, crc=crc)
+        inv, fake = models.make(M, dict(self.cfg, refuse=[]), default=default, refuse=refuse, crc=crc,
+                                transport=self.cfg.get("transport", "udp"))
         results = []
         for i in range(3):
             call[0] = i
@@ -83,7 +84,7 @@ class KeysHarness(Harness):
 
     def concrete(self, inputs):
         R = real()
-        tag = f"{self.cfg['family']}:{self.cfg['serial']}:{self.cfg.get('rated_power')}"
+        tag = f"{self.cfg['family']}:{self.cfg['serial']}:{self.cfg.get('rated_power')}" + (":tcp" if self.cfg.get("transport") == "tcp" else "")
         try:
             results = self._run(R, lambda n: bool(inputs.get(f"refuse_{n}", False)),
                                 lambda i: inputs.get(f"battery_mode_{i}", 0), None)
@@ -106,6 +107,10 @@ def tasks(tier, seed):
             cfgs.append({"family": "ET", "serial": s, "rated_power": p})
     for s in models.dt_serials(R, all_tags=(tier == "thorough")):
         cfgs.append({"family": "DT", "serial": s})
+    # the same over Modbus/TCP (other command classes, other validator, 9-byte exception frames)
+    cfgs.append({"family": "ET", "serial": "9010KETU218W0001", "rated_power": 10000, "transport": "tcp"})
+    cfgs.append({"family": "ET", "serial": "9025KETT218W0001", "rated_power": 25000, "transport": "tcp"})
+    cfgs.append({"family": "DT", "serial": "9010KDTU218W0001", "transport": "tcp"})
     n = 32 if tier == "quick" else 64
     return [{"name": f"keys-{i}", "items": cfgs[i::n]} for i in range(n) if cfgs[i::n]]
 
